@@ -67,6 +67,8 @@ const MS: u64 = 1_000_000;
 enum SigOp {
     Ack { file: u32, off: u64 },
     Cancel(String),
+    /// cancel whose reason takes `nap` ns to convert, inside the control's critical section
+    SlowCancel(String, u64),
     Advance(u32),
     Resume { file: u32, off: u64 },
     Send(u64),
@@ -85,6 +87,27 @@ struct C12Shared {
     /// reconnect mode: model of the pending-resume slot (exact: resume/advance are serialised)
     pending: bool,
     cancel_reasons: Vec<String>,
+    /// (entered, left) the slow conversion inside `cancel`'s critical section, sim ns
+    slow_cancel: Option<(u64, u64)>,
+}
+
+/// A cancel reason whose conversion to `String` (evaluated by `cancel` while it holds the
+/// control's lock) takes simulated time: the signaller's critical section can then straddle
+/// the waiter's deadline.
+struct SlowReason {
+    text: String,
+    nap_ns: u64,
+    log: Arc<std::sync::Mutex<C12Shared>>,
+}
+impl From<SlowReason> for String {
+    fn from(r: SlowReason) -> String {
+        let t_in = simkernel::now_ns();
+        thread::sleep(Duration::from_nanos(r.nap_ns));
+        let t_out = simkernel::now_ns();
+        r.log.lock().unwrap().slow_cancel = Some((t_in, t_out));
+        simkernel::count("fault.slow_critical_section_across_deadline");
+        r.text
+    }
 }
 
 fn c12_wake(case: &Case) {
@@ -168,6 +191,21 @@ fn c12_wake(case: &Case) {
         max_t = max_t.max(t);
         plans.push(plan);
     }
+    // a signaller whose critical section is still open when the waiter's deadline passes
+    let mut slow_planned = false;
+    if !never && deadline_ns < 100 * MS && simkernel::choose(3) == 0 {
+        'outer: for plan in plans.iter_mut() {
+            for (t, op) in plan.iter_mut() {
+                if *t < deadline_ns
+                    && let SigOp::Cancel(r) = op
+                {
+                    *op = SigOp::SlowCancel(r.clone(), deadline_ns - *t + MS);
+                    slow_planned = true;
+                    break 'outer;
+                }
+            }
+        }
+    }
     case.sample(json!({
         "mode": if reconnect_mode { "wait_for_reconnect" } else { "wait_for_credit" },
         "window": window, "ring_cap": ring_cap, "sent": sent, "acked": acked, "chunk_len": len,
@@ -180,6 +218,7 @@ fn c12_wake(case: &Case) {
         returned: None,
         pending: false,
         cancel_reasons: Vec::new(),
+        slow_cancel: None,
     }));
     // serialises resume/advance so the pending-resume model is exact
     let order = Arc::new(Mutex::new(()));
@@ -227,6 +266,10 @@ fn c12_wake(case: &Case) {
                     SigOp::Cancel(r) => {
                         sh.lock().unwrap().cancel_reasons.push(r.clone());
                         ctl.cancel(r)
+                    }
+                    SigOp::SlowCancel(r, nap_ns) => {
+                        sh.lock().unwrap().cancel_reasons.push(r.clone());
+                        ctl.cancel(SlowReason { text: r, nap_ns, log: sh.clone() })
                     }
                     SigOp::Advance(f) => {
                         let _g = order.lock().unwrap();
@@ -279,7 +322,10 @@ fn c12_wake(case: &Case) {
             };
             let now = simkernel::now_ns();
             let expired = now >= deadline_ns;
-            if returned.is_none() {
+            // (when a signaller's critical section is stretched across the deadline the monitor's
+            // own reads queue behind that lock, so what it sees is no longer a quiescent state:
+            // such runs are judged by their final outcome only)
+            if returned.is_none() && !slow_planned {
                 if pred {
                     m_case.fail(
                         "lost-wakeup",
@@ -331,7 +377,20 @@ fn c12_wake(case: &Case) {
     };
     if res_str == "timeout" {
         case.probe("waiter_timed_out");
-        case.check(t_ret == deadline_ns, "timeout-not-at-deadline", || {
+        // A cancel whose critical section was open from before the deadline until after it:
+        // the waiter could not have looked at the state in between, so when it finally got
+        // the lock the cancel had been applied - reporting Timeout discards it.
+        if let Some((t_in, t_out)) = sh.slow_cancel
+            && t_in < deadline_ns
+            && t_out > deadline_ns
+        {
+            case.fail(
+                "timeout-despite-applied-cancel",
+                format!("a cancel held the control's lock from t={t_in}ns to t={t_out}ns, across the waiter's deadline {deadline_ns}ns; the waiter returned Timeout at t={t_ret}ns although the transfer was cancelled by then"),
+            );
+            return;
+        }
+        case.check(t_ret == deadline_ns || (slow_planned && t_ret >= deadline_ns), "timeout-not-at-deadline", || {
             format!("wait returned Timeout at t={t_ret}ns, deadline was {deadline_ns}ns")
         });
     } else {
